@@ -233,7 +233,7 @@ func genC09(t *rapid.T) c09Case {
 				if ch.Node != nil || model.IsEllipsisName(ch.Var) {
 					continue
 				}
-				switch choose() {
+				switch rapid.SampledFrom([]int{0, 0, 0, 1, 3, 4, 4, 4}).Draw(t, "itemBindClass") {
 				case 0:
 					add(Assign{Name: ch.Var, Kind: "item", Node: genTree(t, treeOpts{NoDeep: true, MaxDepth: 2, MaxElems: 3}, nm)})
 				case 3:
